@@ -105,4 +105,5 @@ def run(ctx):
             lib.precedes(ctx, '6c key-hashed-before-lookup %s' % fn, b, hs, [g for g in gs if any(call_matches(b.term(g), ['re:and_then']) for _ in [0])] or gs[:1],
                          'the key is hashed with the column hasher before the overlay lookup in the hash arm')
     shared.one_salt_per_handle(ctx, '8')
+    shared.page_search_hands_out_only_compared_entries(ctx, '10a')   # F67
     shared.removal_planned_in_order(ctx, '9')   # a tree inserted after its removal in one transaction is there once the commit was processed (F63)
